@@ -1,6 +1,8 @@
 (* C09 - Incentive gauges pay pro-rata, on schedule, and never more than they hold.
    Property theorems only; each is closed by a lemma of C09/Proofs*.v.
-   Model: C09/Model.v (lock-based ByDuration gauges; group, NoLock and synthetic-lock gauges are out of scope).
+   Model: C09/Model.v (lock-based ByDuration gauges, and external NoLock gauges in their minimal form: per-epoch amount
+   floor(remaining / remaining epochs) handed to the pool, zero amounts rejected; group, internal NoLock and
+   synthetic-lock gauges are out of scope).
    Standing assumption on the chain configuration: [cfg_ok cfg] - every lockable duration exceeds the 1 ms that
    getDistributeToBaseLocks uses as its cache query (true of every deployed configuration: 1 s, 1 h, 3 h, 7 h, ...).
    Histories are arbitrary lists of operations from the initial state; a failing operation leaves the state
@@ -109,40 +111,41 @@ Theorem C09_filled_bounds : forall cfg funds ops g, cfg_ok cfg ->
 Proof. exact filled_bounds. Qed.
 Print Assumptions C09_filled_bounds.
 
-(* one epoch end, exactly: FilledEpochs grows by one iff a lock qualified; the gauge is finished iff N <= filled_before + 1 *)
+(* one epoch end, exactly: FilledEpochs grows by one iff a lock qualified (always for a NoLock gauge, g_pool <> 0);
+   the gauge is finished iff N <= filled_before + 1 *)
 Theorem C09_finish_step : forall cfg funds ops thr s' g, cfg_ok cfg ->
   let s := run cfg (init_state funds) ops in
   after_epoch_end cfg thr s = Ok s' ->
   takes_part s g -> g_perp g = false -> sum_locks (elig (s_locks s) g) < 2 ^ max_int_bits ->
   exists g', get_gauge (s_gauges s') (g_id g) = Some g' /\ g_n g' = g_n g /\ g_perp g' = false /\
     g_filled g < g_n g /\
-    (elig (s_locks s) g <> [] -> g_filled g' = g_filled g + 1) /\
-    (elig (s_locks s) g = [] -> g' = g) /\
+    (g_pool g <> 0 \/ elig (s_locks s) g <> [] -> g_filled g' = g_filled g + 1) /\
+    (g_pool g = 0 -> elig (s_locks s) g = [] -> g' = g) /\
     (In (g_id g) (refs_all (s_fin s')) <-> g_n g <= g_filled g + 1) /\
     (In (g_id g) (refs_all (s_act s')) <-> g_filled g + 1 < g_n g).
 Proof. intros; eapply finish_step; eauto; apply reachable_inv; assumption. Qed.
 Print Assumptions C09_finish_step.
 
-(* EXACT characterisation of F6: a gauge ends an epoch finished with unpaid epochs iff no lock qualified at that
-   epoch end and it had exactly one epoch left *)
+(* EXACT characterisation of F6: a gauge ends an epoch finished with unpaid epochs iff it is a lock gauge, no lock
+   qualified at that epoch end and it had exactly one epoch left *)
 Theorem C09_finish_characterisation : forall cfg funds ops thr s' g, cfg_ok cfg ->
   let s := run cfg (init_state funds) ops in
   after_epoch_end cfg thr s = Ok s' ->
   takes_part s g -> g_perp g = false -> sum_locks (elig (s_locks s) g) < 2 ^ max_int_bits ->
   exists g', get_gauge (s_gauges s') (g_id g) = Some g' /\
     ((In (g_id g) (refs_all (s_fin s')) /\ g_filled g' < g_n g')
-     <-> (elig (s_locks s) g = [] /\ g_filled g = g_n g - 1)).
+     <-> (g_pool g = 0 /\ elig (s_locks s) g = [] /\ g_filled g = g_n g - 1)).
 Proof. intros; eapply finish_characterisation; eauto; apply reachable_inv; assumption. Qed.
 Print Assumptions C09_finish_characterisation.
 
 (* ---- per-epoch shares *)
-(* FULL statement: at every successful epoch end every address is credited exactly the floors of the pro-rata shares
+(* FULL statement: at every successful epoch end every user (non-negative address) is credited exactly the floors of the pro-rata shares
    of the locks whose reward receiver it is (nothing for amounts not worth the minimum) *)
 Definition C09_share_full : Prop :=
   forall cfg funds ops thr s', cfg_ok cfg -> thr_positive thr ->
   let s := run cfg (init_state funds) ops in
   after_epoch_end cfg thr s = Ok s' ->
-  forall a d, a <> MODULE -> s_bank s' a d - s_bank s a d = ideal_credit cfg thr s a d.
+  forall a d, 0 <= a -> s_bank s' a d - s_bank s a d = ideal_credit cfg thr s a d.
 
 (* It is FALSE of the faithful model, for two independent reasons. *)
 (* finding C09-F2: skipSpamGaugeDistribute's hard-coded filter (one remaining coin of at most 100 units) *)
@@ -172,7 +175,7 @@ Print Assumptions C09_share_refuted.
      - [share_hyp]: no gauge with qualifying locks falls under the small-gauge filter   (excludes C09-F2),
        lock sums fit 256 bits and epoch counts fit 63 bits (the SDK's integer ranges)
      - [thr_positive]: a successful min-value quote is at least 1 (the pools return an error otherwise)
-   every address other than the module account is credited, at every successful epoch end after every history,
+   every user (non-negative address; pools' incentives addresses are negative) is credited, at every successful epoch end after every history,
    EXACTLY the sum over the gauges that take part and over the qualifying locks it is the receiver of, of
    floor(remaining * lockAmount / (totalLocked * epochsLeft)) when that is positive and worth the minimum, else 0;
    epochsLeft = 1 for perpetual gauges (they pay everything each epoch). *)
@@ -181,8 +184,8 @@ Theorem C09_per_epoch_share_partial : forall cfg funds ops thr s', cfg_ok cfg ->
   consistent_receivers (s_locks s) ->
   (forall g, takes_part s g -> share_hyp cfg (s_locks s) g) ->
   after_epoch_end cfg thr s = Ok s' ->
-  forall a d, a <> MODULE -> s_bank s' a d - s_bank s a d = ideal_credit cfg thr s a d.
-Proof. intros; eapply share_credit; eauto; apply reachable_inv; assumption. Qed.
+  forall a d, 0 <= a -> s_bank s' a d - s_bank s a d = ideal_credit cfg thr s a d.
+Proof. exact share_credit_reachable. Qed.
 Print Assumptions C09_per_epoch_share_partial.
 
 (* the same at the level of one lock and one gauge, WITHOUT the two hypotheses about findings: what distributeInternal
@@ -216,11 +219,30 @@ Theorem C09_epoch_succeeds_refuted : ~ C09_epoch_succeeds_full.
 Proof. exact epoch_succeeds_full_refuted. Qed.
 Print Assumptions C09_epoch_succeeds_refuted.
 
-(* PROVED PART, and exact characterisation of C09-F3: an error of the injected min-value quote is the ONLY way an epoch
-   end can fail - without one, AfterEpochEnd succeeds after every history (no Coins.Sub panic, no failing send, no
-   inconsistent reference list, no "gauge is not active") *)
-Theorem C09_epoch_succeeds_partial : forall cfg funds ops thr, cfg_ok cfg -> thr_no_error thr ->
+(* ... and it is still FALSE when no quote fails: finding C09-F5, a NoLock gauge whose remaining coin is smaller than
+   its remaining epochs (2 uosmo over 3 epochs) makes the epoch end fail; user 1 is owed 5*10^8 by the lock gauge *)
+Definition C09_epoch_succeeds_without_quote_error_full : Prop :=
+  forall cfg funds ops thr, cfg_ok cfg -> thr_no_error thr ->
   exists s', after_epoch_end cfg thr (run cfg (init_state funds) ops) = Ok s'.
+
+Theorem C09_epoch_aborted_by_nolock_gauge_witness :
+  after_epoch_end w_cfg w_thr w5_pre = Err E_EPOCH /\ ideal_credit w_cfg w_thr w5_pre 1 0 = 500000000 /\
+  map g_filled (s_gauges w5_pre) = [1; 0] /\ refs_all (s_act w5_pre) = [1] /\ refs_all (s_up w5_pre) = [2].
+Proof. exact witness_F5. Qed.
+Print Assumptions C09_epoch_aborted_by_nolock_gauge_witness.
+
+Theorem C09_epoch_succeeds_without_quote_error_refuted : ~ C09_epoch_succeeds_without_quote_error_full.
+Proof. exact epoch_succeeds_without_quote_error_refuted. Qed.
+Print Assumptions C09_epoch_succeeds_without_quote_error_refuted.
+
+(* PROVED PART, and exact characterisation of C09-F3 and C09-F5: these two are the ONLY ways an epoch end can fail.
+   If no min-value quote returns an error and every NoLock gauge that takes part has, for each remaining coin, at least
+   as many units as remaining epochs ([nolock_ok]), AfterEpochEnd succeeds after every history (no Coins.Sub panic, no
+   failing send, no inconsistent reference list, no "gauge is not active") *)
+Theorem C09_epoch_succeeds_partial : forall cfg funds ops thr, cfg_ok cfg -> thr_no_error thr ->
+  let s := run cfg (init_state funds) ops in
+  (forall g, takes_part s g -> nolock_ok g) ->
+  exists s', after_epoch_end cfg thr s = Ok s'.
 Proof. exact epoch_fails_only_by_quote_error. Qed.
 Print Assumptions C09_epoch_succeeds_partial.
 
@@ -246,3 +268,14 @@ Example C09_share_nonvacuous :
   after_epoch_end w_cfg w_thr nv2_pre = Ok (epoch_of w_cfg w_thr nv2_pre) /\
   ideal_credit w_cfg w_thr nv2_pre 1 0 = 1250000000 /\ ideal_credit w_cfg w_thr nv2_pre 2 0 = 3750000000.
 Proof. exact nonvacuous_share. Qed.
+
+(* a reachable state with a NoLock gauge that meets the hypothesis [nolock_ok] of the liveness theorem: the epoch end
+   succeeds and floor(10/3) = 3 uosmo move from the module account to the pool's incentives address *)
+Example C09_nolock_nonvacuous :
+  (forall g, takes_part nv3_pre g -> nolock_ok g) /\
+  (exists g, takes_part nv3_pre g /\ g_pool g = 1) /\
+  after_epoch_end w_cfg w_thr nv3_pre = Ok (epoch_of w_cfg w_thr nv3_pre) /\
+  s_bank nv3_pre MODULE 0 = 10 /\ s_bank (epoch_of w_cfg w_thr nv3_pre) MODULE 0 = 7 /\
+  s_bank (epoch_of w_cfg w_thr nv3_pre) (pool_addr 1) 0 - s_bank nv3_pre (pool_addr 1) 0 = 3 /\
+  map (fun g => (amount_of (g_dist g) 0, g_filled g)) (s_gauges (epoch_of w_cfg w_thr nv3_pre)) = [(3, 1)].
+Proof. exact nonvacuous_nolock. Qed.
